@@ -217,8 +217,17 @@ bool xact_base_t::finalize()
     add_post(null_post);
   }
 
-  if (! null_post && balance.is_balance() &&
-      balance.as_balance().amounts.size() == 2) {
+  // A commodity whose postings cancel exactly may leave a component that is
+  // exactly zero behind in the balance; which postings came first decides
+  // whether it does, so such components are not counted here.
+  std::size_t commodities_left = 0;
+  if (! null_post && balance.is_balance())
+    foreach (const balance_t::amounts_map::value_type& pair,
+             balance.as_balance().amounts)
+      if (! pair.second.is_realzero())
+        commodities_left++;
+
+  if (commodities_left == 2) {
     // When an xact involves two different commodities (regardless of how
     // many posts there are) determine the conversion ratio by dividing the
     // total value of one commodity by the total value of the other.  This
@@ -249,10 +258,16 @@ bool xact_base_t::finalize()
 
       DEBUG("xact.finalize", "there were no costs, and a valid top_post");
 
-      balance_t::amounts_map::const_iterator a = bal.amounts.begin();
-
-      const amount_t * x = &(*a++).second;
-      const amount_t * y = &(*a++).second;
+      const amount_t * x = NULL;
+      const amount_t * y = NULL;
+      foreach (const balance_t::amounts_map::value_type& pair, bal.amounts) {
+        if (pair.second.is_realzero())
+          continue;
+        if (! x)
+          x = &pair.second;
+        else
+          y = &pair.second;
+      }
 
       if (*x && *y) {
         if (x->commodity() != top_post->amount.commodity())
